@@ -227,7 +227,7 @@ func init() {
 	eConcDisjoint := &core.Engine{Name: "conc-disjoint", Run: RunConcDisjoint}
 	core.Register(&core.PropSpec{
 		ID: "C07", Level: "exploration",
-		Rule:        "2-8 goroutines x 6-14 operations on one handle (insert batches with unique tags, point update/replace/delete, bulk update/delete by group, index create/drop, FindAll snapshots, Count, FindById, ListIndexes; one *query.Query and one Criteria shared and extended by all goroutines) with scheduling perturbed at every store call (Gosched / 1-50 us sleeps, seeded); every call is recorded with call/return stamps from one atomic counter and the history is checked by porcupine against a sequential model of the collection (a conflict-rejected operation is accepted only as a no-op; 60 s budget, Unknown = inconclusive); every snapshot read is checked online for torn batches and partly applied bulk updates; the state-rebuild audit runs at quiescence; a quarter of the cases run again in the -race build and every race report whose stacks contain clover frames is a violation. evaluations = recorded operations checked; a cell is an overlapping operation-kind pair actually observed per backend class.",
+		Rule:        "2-8 goroutines x 6-14 operations on one handle (insert batches with unique tags, point update/replace/delete, bulk update/delete by group, index create/drop, FindAll snapshots, Count, FindById, ListIndexes; one *query.Query and one Criteria shared and extended by all goroutines) with scheduling perturbed at every store call (Gosched / 1-50 us sleeps, seeded); every call is recorded with call/return stamps from one atomic counter and the history is checked by porcupine against a sequential model of the collection (a conflict-rejected operation is accepted only as a no-op; 12 s budget per history in the quick tier, 60 s in the thorough tier, Unknown = inconclusive); every snapshot read is checked online for torn batches and partly applied bulk updates; the state-rebuild audit runs at quiescence; a quarter of the cases run again in the -race build and every race report whose stacks contain clover frames is a violation. evaluations = recorded operations checked; a cell is an overlapping operation-kind pair actually observed per backend class.",
 		Assumptions: []string{"interleavings are sampled, not enumerated: the evidence lists which operation pairs were seen overlapping", "races wholly inside bbolt/badger are logged as external and do not decide"},
 		Uses:        []core.Use{{E: eConc, Quick: 600, Thorough: 20000, Race: true}, {E: &core.Engine{Name: "conc-catalog", Run: RunConcCatalog}, Quick: 150, Thorough: 5000, Race: true}, {E: eConcDisjoint, Quick: 100, Thorough: 3000, Race: true}},
 	})
